@@ -11,6 +11,8 @@ case $c in C16) feat="--features sync";; esac
 if [ "$c" = "C17" ]; then
   if grep -q "specialized" "$O/notes.md" && [ "$v" = "a" ]; then feat="--features specialized"; tc="+nightly"; else feat="--features sync"; fi
 fi
+[ -n "$DEMO_FEAT" ] && feat="$DEMO_FEAT"
+[ -n "$DEMO_TC" ] && tc="$DEMO_TC"
 run_demo() {
   if [ -f "$O/demo.rs" ]; then
     cp "$O/demo.rs" "$W/jmespath/tests/seeded_demo.rs"
